@@ -276,18 +276,18 @@ def carriers(ctxs, lay, scratch, rng):
     yield "json-text", jtxt
     yield "stringio-yaml", io.StringIO(ytxt)
     yield "stringio-json", io.StringIO(jtxt)
-    py = scratch.path(".yaml")
+    py = scratch.dir / "config.yaml"  # the same path is rewritten for every config: a reload must see the new text
     py.write_text(ytxt)
     yield "str-path-yaml", str(py)
     yield "Path-yaml", Path(py)
-    pj = scratch.path(".json")
+    pj = scratch.dir / "config.json"
     pj.write_text(jtxt)
     yield "str-path-json", str(pj)
     yield "Path-json", Path(pj)
     ds = xr.Dataset({"x": ("t", np.arange(2.0))}, attrs={"ioos_qc_config": jtxt})
     yield "xarray-global-json", ds
     yield "xarray-global-yaml", xr.Dataset({"x": ("t", np.arange(2.0))}, attrs={"ioos_qc_config": ytxt})
-    pn = scratch.path(".nc")
+    pn = scratch.dir / "config.nc"
     ds.to_netcdf(pn, engine="scipy")
     yield "netcdf3-file-global", str(pn)
     no_null = all(kw is not None for c in ctxs for tests in c["streams"].values() for _, _, kw in tests)
